@@ -95,7 +95,7 @@ let resp_s = function
   | RGet None -> "V(-)"
   | RGet (Some (v, c)) -> "V(" ^ hx v ^ "," ^ hx c ^ ")"
   | RPairs ps -> "[" ^ String.concat ";" (List.map pair_s ps) ^ "]"
-  | RLocks ls -> "K[" ^ String.concat ";" (List.map (fun ((k, p), s) -> hx k ^ "," ^ hx p ^ "," ^ hx s) ls) ^ "]"
+  | RLocks ls -> "K[" ^ String.concat ";" (List.map (fun (k, l) -> hx k ^ "," ^ hx l.l_primary ^ "," ^ hx l.l_start ^ "," ^ opc l.l_op ^ "," ^ hx l.l_ttl ^ "," ^ hx l.l_for_update) ls) ^ "]"
 
 let wk_s = function WPut -> "P" | WDel -> "D" | WRollback -> "R" | WLock -> "L"
 let ks_s (ks : kstate) =
@@ -218,6 +218,10 @@ module Oracles = struct
        let sp = resp_s (RPairs (spec_scan before s e l t rs)) in chk "scan_is_gets" (unchanged && sp = iresp) ("scan answered " ^ iresp ^ ", per-key gets " ^ sp)
      | ReverseScan (s, e, l, t, rs) ->
        let sp = resp_s (RPairs (spec_rscan before s e l t rs)) in chk "reverse_mirror" (unchanged && sp = iresp) ("reverse scan answered " ^ iresp ^ ", mirror " ^ sp)
+     | ScanLock (s, e, m) ->
+       (* the answer lists exactly the locks of the range with start ts <= max, with their primary, type, ttl, for-update ts *)
+       let sp = resp_s (snd (step before (ScanLock (s, e, m)))) in
+       chk "scan_lock_reports_locks" (unchanged && sp = iresp) ("scan-lock answered " ^ iresp ^ ", the locks stored are " ^ sp)
      | Rc q ->
        (* isolation level RC = the same read on the store with every lock removed *)
        let u = unlocked before in
